@@ -85,7 +85,7 @@ def c_base(words):
 def parse_c_param(text, want_name=True):
     """One C parameter or field declaration -> dict(base, ptr, name, array)."""
     s = text.replace("\t", " ").strip().rstrip(";").strip()
-    if s == "void":
+    if s == "void" and want_name:
         return None
     if s == "...":
         raise ParseError("variadic parameter")
@@ -162,6 +162,40 @@ def parse_c_header(text):
             continue
         protos[name] = {"ret": ret, "params": ps, "text": " ".join(m.group(0).split())}
     return protos, structs, defines
+
+
+def parse_c_defs(text):
+    """Function DEFINITIONS at file scope of a C/C++ source -> {name: {"ret", "params", "text"}}"""
+    body = strip_c_comments(text)
+    body = re.sub(r'"(?:\\.|[^"\\\n])*"', '""', body)
+    body = re.sub(r"'(?:\\.|[^'\\\n])'", "' '", body)
+    body = re.sub(r"^[ \t]*#.*$", "", body, flags=re.M)
+    body = re.sub(r'extern\s*""\s*\{', " ", body)
+    out, depth, i, start = {}, 0, 0, 0
+    n = len(body)
+    while i < n:
+        ch = body[i]
+        if ch == "{":
+            if depth == 0:
+                head = body[start:i]
+                m = re.search(r"((?:[A-Za-z_][\w]*[\s\*]+)+?)([A-Za-z_]\w*)\s*\(([^(){};]*(?:\([^()]*\)[^(){};]*)*)\)\s*$", head, re.S)
+                if m and m.group(1).split()[0] not in ("typedef", "return", "else", "struct", "enum", "union", "namespace", "class"):
+                    rt = re.sub(r"\b(static|inline|extern)\b", " ", m.group(1))
+                    if not re.search(r"\bstatic\b", m.group(1)):
+                        try:
+                            out[m.group(2)] = {"ret": parse_c_param(rt, want_name=False), "params": parse_c_proto_params(m.group(3)),
+                                               "text": " ".join(m.group(0).split())}
+                        except ParseError as e:
+                            out[m.group(2)] = {"error": str(e), "text": " ".join(m.group(0).split())}
+            depth += 1
+        elif ch == "}":
+            depth = max(0, depth - 1)
+            if depth == 0:
+                start = i + 1
+        elif ch == ";" and depth == 0:
+            start = i + 1
+        i += 1
+    return out
 
 
 def _remove_braced(body):
